@@ -198,9 +198,17 @@ CoreElement(r, e) ==
       [] e.k = "StreamError" -> Signal(r, "error")
       [] OTHER              -> ErrorClose(r)      \* proceed, tls failure, SASL, SM nonzas, whitespace, ...
 
+\* "ProceedThen": <proceed/> and a plaintext features element in the same segment (a peer or an
+\* attacker on the plain link injects data between <proceed/> and the TLS handshake).  The
+\* handshake has only been started when the second element is dispatched, so the stream is not
+\* encrypted yet: with TLS required and no STARTTLS in those features the client gives up
+\* (handleStarttls).  Only generated for TLS-required configurations and features without
+\* STARTTLS, where the outcome does not depend on how the pending handshake ends.
 StarttlsElement(r, e) ==
     IF e.k = "Proceed"
     THEN HandleStart([SetLst(r, "Core") EXCEPT !.c.enc = TRUE, !.c.wrap = FALSE])   \* startClientEncryption; `encrypted` -> handleStart
+    ELSE IF e.k = "ProceedThen"
+    THEN HandleFeatures(SetLst(r, "Core"), e.f)
     ELSE ErrorClose(r)
 
 SaslElement(r, e) ==
@@ -287,6 +295,7 @@ HandleHeader(r0, versioned) ==
 (* ---------------------------------------------------------------------- *)
 Elements ==
     {[k |-> "Features", f |-> F] : F \in FeatureSets}
+    \cup {[k |-> "ProceedThen", f |-> F] : F \in {G \in FeatureSets : G.tls = "absent"}}
     \cup {[k |-> "Success2", res |-> rs, bnd |-> b] : rs \in {"none", "resumed", "failed"},
                                                     b \in {"none", "plain", "enabled", "enabledNoResume", "smfailed"}}
     \cup {[k |-> x] : x \in {"Proceed", "TlsFailure", "Success", "Failure", "Failure2", "Continue2",
@@ -369,6 +378,7 @@ ServerElement(e) ==
     /\ c.sock = "On" /\ c.wrap /\ ~c.frag
     /\ e.k = "IqReply" => c.iq = "out"            \* the server can only answer what was asked
     /\ e.k = "SeeOtherHost" => c.conn < MaxConn   \* (bound: a redirect opens another connection)
+    /\ e.k = "ProceedThen" => (cfg.tls = "Required" /\ c.lst = "Starttls" /\ cfg.reg = "none")
     /\ Apply(Dispatch(R0(c), e), e)
 
 \* The connection is about to be lost in the middle of an element: the beginning of an element
